@@ -18,6 +18,8 @@ def keylist(tier):
     par = [bytes(b ^ (1 if i == j else 0) for i, b in enumerate(base)) for j in range(8)]
     ks += [base] + (par if tier == 'thorough' else par[::4])
     ks.append(bytes.fromhex('0123456789abcdef'))
+    sp = R.des_keys_with_equal_round_keys(0, 15)          # keys whose first and last round keys coincide
+    ks += sp[1::(3 if tier == 'thorough' else 40)]
     return ks
 
 
@@ -97,6 +99,23 @@ def run_states(ctx, pt):
         ctx.eq('C18/whitebox-enc-vs-FIPS46-3/internal-state-classes', ctx.attempt(W.enc, b), ('ok', RDES.des_enc(key, b)))
 
 
+def pts_manyblocks(tier):
+    return [(0,)] if tier == 'thorough' else []
+
+
+def run_manyblocks(ctx, pt):
+    """one WhiteDES object encrypts more than 1024 distinct blocks and then the first ones again (sampled, thorough only)"""
+    from crysp import wb
+    key = expander(8, 9)
+    KT, M1, M2, M3 = build(ctx, key)
+    W = wb.WhiteDES(KT, M1, M2, M3)
+    blocks = [(i * 0x9e3779b97f4a7c15 & ((1 << 64) - 1)).to_bytes(8, 'big') for i in range(1040)]
+    for i, b in enumerate(blocks + blocks[:8]):
+        r = ctx.attempt(W.enc, b)
+        if i % 64 == 0 or i >= 1020:
+            ctx.eq('C18/whitebox-enc-vs-FIPS46-3/many-blocks-on-one-object', r, ('ok', RDES.des_enc(key, b)))
+
+
 def pts_inplace(tier):
     return [(0,), (1,)]
 
@@ -136,6 +155,7 @@ def selftest():
 def subchecks():
     return [Sub('internal-states', pts_states, run_states, engine='P', exhaustive=False, chunk=1,
                 bound='2 keys x every round 1..16 x 10 internal (L,R) states (zero, all-ones, one zero half, single bits): the block reaching that state is computed with the reference DES and encrypted by the table network'),
+            Sub('many-blocks', pts_manyblocks, run_manyblocks, engine='H', exhaustive=False, chunk=1, bound='thorough only: 1040 distinct blocks through one WhiteDES object, then the first 8 again'),
             Sub('key-object-reuse', pts_inplace, run_inplace, engine='H', chunk=1, bound='tables generated from one Bits key object that is overwritten in place with another key between two generations'),
             Sub('programs', pts, run, engine='P', exhaustive=False, chunk=1,
                 bound='one generated table network per key: 64 single-bit keys (incl. the 8 parity bits), zero, all-ones, 4 weak + 12 semi-weak keys, patterns, 8 parity-only variants (quick: 37 keys); each run on the 64 single-bit blocks, zero, all-ones and 4 patterns (quick: 22 blocks); structure of every table; M1/M2/M3 identical across keys and calls; each program is generated right after the programs of two neighbouring keys (one key bit / one parity bit away)')]
